@@ -132,7 +132,7 @@ def cc1(tier):
     types = ['LINKED', 'PERMUTATION', 'UNORDERED', 'UNORDERED_NOREPL']
     n_choices = [2, 3]
     n_opts = [2, 3] if tier == 'quick' else [2, 3, 4]
-    placements = ['permanent', 'permanent_indep', 'permanent_shared', 'second_under_first', 'hier', 'hier_indep', 'mutex', 'perm_cond']
+    placements = ['permanent', 'permanent_indep', 'permanent_then_cond', 'permanent_shared', 'second_under_first', 'hier', 'hier_indep', 'mutex', 'perm_cond']
     for ctype in types:
         for nc in n_choices:
             for no in n_opts:
@@ -168,6 +168,15 @@ def _cc_specs(ctype, nc, no, placement, tier):
         add_choice(spec, 'Z', 'a', 2)
         spec['cc'] = [[ctype, cids]]
         yield spec
+    elif placement == 'permanent_then_cond':
+        # constrained permanent choices (followers get no variable) in front of an unconstrained CONDITIONAL choice:
+        # the position of a variable differs from the position of its choice
+        for under in sorted({0, nc-1}):
+            spec = base()
+            opts = [add_choice(spec, cid, 'a', no) for cid in cids]
+            add_choice(spec, 'Z', opts[under][-1], 2)
+            spec['cc'] = [[ctype, cids]]
+            yield spec
     elif placement == 'hier_indep':
         spec = base()
         p = add_choice(spec, 'P', 'a', 2)
@@ -248,6 +257,7 @@ def con2(tier):
     """CON-2: con1 plus two-choice skeletons with connectors tied to options of different choices, grouping
     nodes on both sides over mixed permanent/conditional members, exclusions into conditional and permanent targets."""
     yield from con1(tier)
+    yield from grp_nc(tier)
     D = D_Q if tier == 'quick' else D_T
     for sk, (sa, ta) in (('indep', (('a', 'o1'), ('p1', 'a'))), ('nested', (('a', 'q1'), ('o1', 'a')))):
         for ds in itertools.product(D, repeat=2):
@@ -275,6 +285,23 @@ def con2(tier):
                     tgts = [(dt[0], False, 'a'), (dt[1], True, anchors[1])]
                     yield _conn_spec(sk, srcs, tgts)
                     yield _conn_spec(sk, tgts, srcs, excl=[('S2', 'T3')])
+
+
+def grp_nc(tier):
+    """GRP-NC: grouping node whose members have NON-CONTIGUOUS degree lists (accepted amounts = set of sums, not a range)."""
+    M1 = ['0,2', '1,3', '1']
+    M2 = ['0,2', '1,3', '1', '0..1']
+    contiguous = {'1', '0..1'}
+    others = [[('0..*', True, 'a')], [('2', True, 'a')], [('3', True, 'a')], [('1..2', True, 'a')], [('0..*', False, 'a')],
+              [('0..1', False, 'a'), ('0..2', True, 'a')]]
+    for m1 in M1:
+        for m2 in M2:
+            if m1 in contiguous and m2 in contiguous:
+                continue
+            for a2 in ('a', 'o1'):
+                for other in others:
+                    yield _conn_spec('one', [(m1, False, 'a'), (m2, False, a2)], list(other), grp='src')
+                    yield _conn_spec('one', list(other), [(m1, False, 'a'), (m2, False, a2)], grp='tgt')
 
 
 def dv2(tier):
@@ -360,6 +387,27 @@ def con3(tier):
         for src_deg, tgt_deg in (('1', '0..1'), ('0..1', '0..1'), ('1', '0..*')):
             for cond in (False, True):
                 yield spec_for(n_choices, tgt_deg, src_deg, cond)
+    # one of the connection choices (every position) has NO valid connection set when option o1 (resp. p1) is taken: a single
+    # source with exactly one connection facing two targets that each demand one, the second target existing under the option
+    for sk in ('one', 'indep'):
+        for n_choices in (2, 3):
+            for bad in range(n_choices):
+                for bad_anchor in (['o1'] if sk == 'one' else ['o1', 'p1']):
+                    sp = skel(sk)
+                    sp['conn'] = {}
+                    sp['cch'] = []
+                    for k in range(n_choices):
+                        sp['conn'][f'S{k}'] = dict(deg='1', rep=False, anchor='a')
+                        tn = []
+                        for j in range(2):
+                            t = f'T{k}{j}'
+                            if k == bad:
+                                sp['conn'][t] = dict(deg='1', rep=False, anchor=(bad_anchor if j == 1 else 'a'))
+                            else:
+                                sp['conn'][t] = dict(deg='0..1', rep=False, anchor='a')
+                            tn.append(t)
+                        sp['cch'].append([f'K{k}', [f'S{k}'], tn, []])
+                    yield sp
 
 
 def diamond(tier):
@@ -386,3 +434,50 @@ def diamond(tier):
                 for k_opts in (['O1', 'O2'], ['O2', 'O1']):
                     yield dict(starts=['s'], nodes=nodes, edges=edges, incompat=[],
                                choices=[['CH2', 'C', ['x', 'y']], ['K', 's', k_opts]])
+
+
+def inc(tier):
+    """INC: option k1 with a nested choice N; every subset of the edges that make k1 (or the other option) a necessary
+    deriver of A / Z; one incompatibility pair."""
+    import itertools
+    cand = [['k1', 'A'], ['n1', 'Z'], ['n2', 'Z'], ['k2', 'Z'], ['k2', 'A'], ['s', 'A']]
+    pairs = [['A', 'Z'], ['A', 'n1'], ['k1', 'Z'], ['k2', 'n2']]
+    for r in range(len(cand)+1):
+        for es in itertools.combinations(cand, r):
+            for pair in pairs:
+                yield dict(starts=['s'], nodes=['k1', 'k2', 'n1', 'n2', 'A', 'Z'], edges=[list(e) for e in es], incompat=[pair],
+                           choices=[['K', 's', ['k1', 'k2']], ['N', 'k1', ['n1', 'n2']]])
+
+
+def unr(tier):
+    """UNR: a part that cannot be derived from the start node (cyclic, so without a floating root; or with a root) which is
+    referenced from the derivable part by an incompatibility constraint and/or derives a node of the derivable part."""
+    shapes = {
+        'cycle2': dict(nodes=['X', 'Y'], edges=[['X', 'Y'], ['Y', 'X']], choices=[]),
+        'cycle_choice': dict(nodes=['X', 'Y', 'Z', 'W'], edges=[['Y', 'X'], ['Z', 'W']], choices=[['C9', 'X', ['Y', 'Z']]]),
+        'rooted': dict(nodes=['X', 'Y'], edges=[['X', 'Y']], choices=[]),
+        'rooted_choice': dict(nodes=['X', 'Y', 'Z'], edges=[], choices=[['C9', 'X', ['Y', 'Z']]]),
+    }
+    for name, sh in shapes.items():
+        for r in ('a', 'a1', 's'):
+            for u in ('X', 'Y'):
+                for extra in (None, ['X', 'a'], ['Y', 'b'], ['Y', 'a1']):
+                    yield dict(starts=['s'], nodes=['a', 'b', 'a1', 'p', 'q'] + sh['nodes'],
+                               edges=[['a', 'a1']] + [list(e) for e in sh['edges']] + ([extra] if extra else []),
+                               incompat=[[r, u]],
+                               choices=[['C0', 's', ['p', 'q']], ['C1', 's', ['a', 'b']]] + [list(c) for c in sh['choices']])
+
+
+def inc2(tier):
+    """INC-2: one node takes part in two (three) incompatibility constraints with different partners; partners are options
+    or nodes derived (depth 1-2) below options of other choices."""
+    for shared in ('a', 'A1'):
+        for p1 in ('b', 'B5', 'B6'):
+            for p2 in ('c', 'C5', 'C6', 'b2'):
+                for order in (0, 1):
+                    pairs = [[shared, p1], [shared, p2]]
+                    if order:
+                        pairs = [[p2, shared], [p1, shared]]
+                    yield dict(starts=['s'], nodes=['a', 'a2', 'A1', 'b', 'b2', 'B5', 'B6', 'c', 'c2', 'C5', 'C6'],
+                               edges=[['a', 'A1'], ['b', 'B5'], ['B5', 'B6'], ['c', 'C5'], ['C5', 'C6']], incompat=pairs,
+                               choices=[['K1', 's', ['a', 'a2']], ['K2', 's', ['b', 'b2']], ['K3', 's', ['c', 'c2']]])
